@@ -820,6 +820,32 @@ func (k *c18Case) scenarioSwitched(base *stor.Stor, m0 kvmap, probeRW bool) {
 		// not explained by the model's seek compactions: report, do not compare
 	} else {
 		c.Lean("life run "+seeks+" openRW 1 0 0 none "+strings.Join(evs, " "), "switchedRO frozen=0 due=0 pins=0 tx=none "+flag)
+		// The same history as an outside observer sees it, now WITH what the reads above are there for: reads that
+		// exhaust seek allowances, each followed by a wake-up of tCompaction.  Whether an allowance really was exhausted
+		// cannot be observed once the loop parks (no compaction is counted any more), so for the histories built for it
+		// (overlapping generations, 420 targeted reads) the line ASSUMES three hits: with a parking loop the model's
+		// answer is "nomut" with or without them, which is what must be observed.  (Against a loop that does not park
+		// the assumption is often wrong — measured: 7 of 47 such histories end in a seek compaction — and the line then
+		// disagrees in addition to the violation `setReadOnly:compaction-after-drain`.)  The flush that was pending
+		// when SetReadOnly was called completes before the mark.
+		fr := "0"
+		if h.frozen {
+			fr = "1"
+		}
+		q := []string{"db.SetReadOnly:0", "bgFlush:0", "bgCompact:0", "mark"}
+		hits := minInt(seekComps, 4)
+		if overlap && hits < 3 {
+			hits = 3
+		}
+		for i := 0; i < hits; i++ {
+			q = append(q, "db.Get:1", "bgCompact:0")
+		}
+		if hits > 0 {
+			q = append(q, "snap-live.Get:1", "bgCompact:1", "iter-live.Next:1", "bgCompact:0")
+		}
+		q = append(q, "db.Get:0", "db.Put:1", "db.CompactRange:1", "bgCompact:0", "bgFlush:0")
+		c.Lean("life quiet "+seeks+" openRW 1 "+fr+" 0 none "+strings.Join(q, " "), "switchedRO "+flag)
+		c.Res.Count("switchedRO:quiet-line", fmt.Sprintf("%s seek-hits asserted=%d pending-flush=%s observed=%s", seeks, hits, fr, flag))
 	}
 	if nmut > 0 {
 		d := c18FilesDiff(files0, c18Files(st))
